@@ -239,6 +239,42 @@ def check_window(P, R):
             else:
                 R.finding(rule2, fn, "%s index %s" % (x["callee"], expr_text(strip(a))),
                           "the line table has %d entries; the index passed here ranges over %s" % (maxl, worst), x)
+    # accesses in pieces of prchunk_fill that were given a name of their own: the index is a member of the context the helper is
+    # handed, ranged where the helper is called
+    for x in fn.walk():
+        if x.get("k") != "CallExpr" or x.get("callee") in ("set_loff", "set_lftermd", "get_loff", "lftermdp"):
+            continue
+        h = fn.tu.func(x.get("callee") or "")
+        if h is None or getattr(h, "body", None) is None or h is fn:
+            continue
+        for y in h.walk():
+            if y.get("k") == "CallExpr" and y.get("callee") in ("set_loff", "set_lftermd", "get_loff", "lftermdp") and len(call_args(y)) > 1:
+                a = strip(call_args(y)[1])
+                while a is not None and a.get("k") in CASTS and a.get("c"):
+                    a = strip(a["c"][0])
+                if a is None or a.get("k") != "MemberExpr" or not a.get("arrow"):
+                    continue
+                b0 = strip(a["c"][0])
+                pj = [i for i, p_ in enumerate(h.params) if b0 is not None and b0.get("k") == "DeclRefExpr" and p_["d"] == b0.get("d")]
+                if not pj or pj[0] >= len(call_args(x)):
+                    continue
+                if any(z.get("k") in ("BinaryOperator", "CompoundAssignOperator", "UnaryOperator") and z.get("op") in ("=", "+=", "-=", "++", "--")
+                       and (strip(z["c"][0]) or {}).get("k") == "MemberExpr" and (strip(z["c"][0]) or {}).get("n") == a.get("n") for z in h.walk()):
+                    continue
+                n2 += 1
+                synth = dict(a)
+                synth["c"] = [call_args(x)[pj[0]]]
+                synth.pop("i", None)
+                ok, worst = True, None
+                for st in iv.states_at(x) or []:
+                    v = iv.eval(synth, st)
+                    if v[0] is None or v[0] < 0 or v[1] is None or v[1] >= maxl:
+                        ok, worst = False, v
+                if ok:
+                    R.ob(rule2, "%s -> %s(ctx, %s) index < %d" % (h.name, y["callee"], expr_text(a), maxl), True)
+                else:
+                    R.finding(rule2, fn, "%s -> %s index %s" % (h.name, y["callee"], expr_text(a)),
+                              "the line table has %d entries; the index passed here ranges over %s" % (maxl, worst), x)
     R.floor(rule2, "line table accesses in prchunk_fill", n2, 3)
     # ---- the readers of the table: prchunk_getlineno bounds lno by the number of lines
     gl = tu.func("prchunk_getlineno")
@@ -494,7 +530,9 @@ def check_eof(P, R):
         gs = [g for g in guards_of(fn, r) if "pol" in g]
         texts = [(expr_text(strip(g["cond"])), g["pol"]) for g in gs]
         ended = any(pol and re.search(r"\b%s\b\s*<=\s*0|!\s*%s\b" % (nrd, nrd), t) for t, pol in texts)
-        misuse = bool(texts) and all(not pol and "bno" in t for t, pol in texts) and any("off" in t for t, pol in texts)
+        # the caller's position against what the window holds, and nothing else (whichever way the chain of tests is written)
+        mem = set(re.findall(r"ctx->(\w+)", " ".join(t for t, _ in texts)))
+        misuse = bool(texts) and mem == {"bno", "off"} and all("bno" in t for t, _ in texts)
         if ended:
             R.ob(rule, "prchunk_fill line %s: -1 where nothing more could be read (`%s`)" % (r.get("l"), nrd), True)
         elif misuse:
@@ -567,10 +605,15 @@ def check_terminated(P, R):
     fn = tu.func("prchunk_fill")
     if fn is None:
         raise AnalysisBroken("prchunk_fill vanished")
-    sites = [c for c in fn.walk() if c.get("k") == "CallExpr" and c.get("callee") == "set_loff" and len(call_args(c)) >= 3]
+    # prchunk_fill and the pieces of it that were given a name of their own (static helpers called from it only)
+    fns = [fn] + [h for h in tu.funclist if getattr(h, "body", None) is not None and h is not fn and h.name != "set_loff"
+                  and any(c.get("k") == "CallExpr" and c.get("callee") == h.name for c in fn.walk())
+                  and not any(g is not fn and g is not h and getattr(g, "body", None) is not None
+                              and any(c.get("k") == "CallExpr" and c.get("callee") == h.name for c in g.walk()) for g in tu.funclist)]
+    sites = [(f_, c) for f_ in fns for c in f_.walk() if c.get("k") == "CallExpr" and c.get("callee") == "set_loff" and len(call_args(c)) >= 3]
     if len(sites) < 2:
         raise AnalysisBroken("%s: the places where prchunk_fill records a line end were not recognised (%d)" % (rule, len(sites)))
-    for c in sites:
+    for fn, c in sites:
         end = strip(call_args(c)[2])
         # the end is `P - buffer start`: the pointer P
         ptr = None
@@ -598,7 +641,7 @@ def check_terminated(P, R):
         else:
             R.finding(rule, fn, site, "the end of a line is recorded but no NUL is stored at it: the line is handed out with whatever an earlier, "
                       "larger window left behind it, and the parsers read on into that", c)
-    R.floor(rule, "recorded line ends", len(sites), 3)
+    R.floor(rule, "recorded line ends", len(sites), 2)
 
 
 def check(P, R, tier):
